@@ -62,13 +62,16 @@ func (proxy *multicastProxy) AddMember(m io.Closer) {
 			}
 		}
 
-		proxy.members = append(proxy.members, m)
 		proxy.cid = stream.StartConsume(proxy, media.RTPPacket,
 			"net = rtsp-multicast, "+proxy.multicastIP)
 		proxy.closed = false
 
 		proxy.logger.Info("multicast proxy started.")
 	}
+
+	// 每个成员都要登记，而不只是启动代理的第一个: a member that is not recorded
+	// is neither counted when another one leaves nor closed when the stream ends
+	proxy.members = append(proxy.members, m)
 }
 
 func (proxy *multicastProxy) ReleaseMember(m io.Closer) {
